@@ -58,7 +58,7 @@ func c14Live(k *fw.K, p *perso.Perso, pp persoPlan, seed uint64, label string) *
 func c14Clone(blob []byte) *document.DocumentEx {
 	doc, b, err := document.UnmarshalVerifiableDoc(blob)
 	if err != nil {
-		fw.Bug("cannot re-import a genuine export: %v", err)
+		fw.LibFail("genuine-export-not-importable", "cannot re-import a genuine export: %v", err)
 	}
 	d := &document.DocumentEx{Document: *doc}
 	if b.PaceCam != nil {
@@ -146,8 +146,21 @@ func c14Mutations(cur, other *document.DocumentEx, curveOf func(mech string) *ec
 	scalarKinds := func(get func(d *document.DocumentEx) *[]byte) map[string]func([]byte) []byte {
 		return map[string]func([]byte) []byte{"flip-low": flipLow, "flip-high": flipHigh, "plus-one": plusOne, "other-session": otherVal(get), "truncate": trunc}
 	}
+	negated := func(mech string) func([]byte) []byte {
+		return func(b []byte) []byte {
+			c := curveOf(mech)
+			if c == nil {
+				return nil
+			}
+			pt, err := c.Decode(b)
+			if err != nil {
+				return nil
+			}
+			return c.Encode(c.Neg(pt)) // same x-coordinate, other y: still a point of the curve
+		}
+	}
 	pointKinds := func(mech string, get func(d *document.DocumentEx) *[]byte) map[string]func([]byte) []byte {
-		return map[string]func([]byte) []byte{"flip-low": flipLow, "flip-mid": flipMid, "other-valid-point": otherPoint(mech), "other-session": otherVal(get), "truncate": trunc}
+		return map[string]func([]byte) []byte{"negated-point": negated(mech), "flip-low": flipLow, "flip-mid": flipMid, "other-valid-point": otherPoint(mech), "other-session": otherVal(get), "truncate": trunc}
 	}
 	bytesKinds := func(get func(d *document.DocumentEx) *[]byte) map[string]func([]byte) []byte {
 		return map[string]func([]byte) []byte{"flip-low": flipLow, "flip-high": flipHigh, "flip-mid": flipMid, "other-session": otherVal(get), "truncate": trunc}
